@@ -44,6 +44,10 @@ ndarrays as int64 / float32 / non-contiguous; kinds the unchanged module rejects
 lists, list ndarrays) are driven and counted as skip classes.  Besides the recurrence oracle at the float64 point values the
 result must equal the same call on float64 ndarrays (inputs:*:disagrees-with-float64-ndarray-call,
 inputs:function1d:integer-free-variable-truncates, inputs:*:raises-but-float64-ndarray-call-works).
+N-d ndarray inputs (2-D and 3-D) come in C, Fortran, transposed / rolled-axes, strided and broadcast (zero-stride)
+layouts, all arrays alike or each differently, and are judged element by element (recurrence per point + the same call on
+C-contiguous float64 copies).  Equilibrium-mapped results are additionally evaluated BETWEEN the psi_n nodes: non-negative,
+fractions <= 1 and summing to one, and identical to interpolators1d_<family> evaluated at psi_n(r, z) (off-node:* keys).
 Mechanism keys: a mismatch on a point solved through scipy's bounded TRF iteration (OptimizeResult.status in {-1,0,1,2},
 seen through a recording wrapper of the module's lsq_linear reference) is keyed solver:*, a result equal to the exact
 no-donor solution while a donor was supplied is keyed tcx-donor-ignored:*, anything else by sub-clause and entry point.
@@ -84,7 +88,7 @@ THOROUGH = dict(cases=26000, workers=16, timecap=600)
 REQUIRED = {"fractions": 5000, "balance": 5000, "sum_range": 500, "densities": 1500, "neutrality": 150, "cross_entry": 1000,
             "interp_nodes": 2000, "eqmap_points": 1000, "contract_evals": 1000, "donor_sensitive": 80,
             "sequence_steps": 100, "sequence_repeat": 20, "mixed_donor_points": 40, "dict_order_pairs": 15,
-            "repeated_point_pairs": 30, "input_kind_pairs": 60}
+            "repeated_point_pairs": 30, "input_kind_pairs": 60, "eqmap_offnode": 300}
 
 EPS = 2.220446049250313e-16
 CF = 200.0
@@ -103,7 +107,8 @@ SEQ_CHANGES = ["donor_charge", "donor_charge", "donor_element", "receiver_elemen
                "atomic_data", "entry", "donor_on_off"]
 SEQ_WEIGHT = 0.12
 
-ALLREPS = ["scalar", "npscalar", "array1d", "array2d", "func1d", "func1d_scalar", "func2d", "mixed0d", "mixed1d", "mixed2d"]
+ALLREPS = ["scalar", "npscalar", "array1d", "array2d", "array3d", "func1d", "func1d_scalar", "func2d", "mixed0d", "mixed1d", "mixed2d"]
+N_EQ_OFF = 5
 R1D = ["array1d", "func1d", "mixed1d"]
 R2D = ["array2d", "func2d", "mixed2d"]
 ENTRIES = {
@@ -170,8 +175,8 @@ def _pick(rng, names, p):
 
 
 def _gen_input_kinds(rng, rep, shape, single, iseq, fam, ne, te, nd, nel):
-    intgrid = bool((not iseq) and rep not in ("scalar", "npscalar") and rng.random() < 0.5)
-    if rep in ("scalar", "npscalar"):
+    intgrid = bool((not iseq) and rep not in ("scalar", "npscalar", "array3d") and rng.random() < 0.5)
+    if rep in ("scalar", "npscalar", "array3d"):
         fk = {"kind": "none"}
     elif single is not None:
         fk = {"kind": _pick(rng, ["pyint", "np.int64", "len1-int", "np.float32", "pyfloat", "len1-float", "0d"], [3, 1.5, 1.5, 1, 1, 1, 1])
@@ -194,7 +199,12 @@ def _gen_input_kinds(rng, rep, shape, single, iseq, fam, ne, te, nd, nel):
             k = "float64"
         if iseq and k == "list":
             k = "float64"
+        if len(shape) >= 2 and rng.random() < 0.45:      # memory layout of N-d arrays
+            k = _pick(rng, ["F", "T", "noncontig", "broadcast"], [3, 3, 1.5, 2])
         dt[name] = k
+    if len(shape) >= 2 and rng.random() < 0.3:           # every array in the same non-C layout
+        lay = _pick(rng, ["F", "T"], [1, 1])
+        dt = {name: lay for name in dt}
     return fk, dt
 
 
@@ -226,6 +236,8 @@ def gen_case(rng, tier, entry=None, rep=None):
         shape = [int(rng.integers(2, 7))] if (entry.startswith("interpolators") or rep != "array1d") else [int(rng.integers(1, 7))]
     elif rep in ("func1d_scalar", "mixed0d"):
         shape = [int(rng.integers(2, 5))]
+    elif rep == "array3d":
+        shape = [int(rng.integers(2, 4)), 2, int(rng.integers(2, 4))]
     else:
         shape = [int(rng.integers(2, 4)), int(rng.integers(2, 4))]
     n = int(np.prod(shape))
@@ -288,7 +300,7 @@ def gen_case(rng, tier, entry=None, rep=None):
             k = "scalar"
         elif rep == "npscalar":
             k = "npscalar"
-        elif rep in ("array1d", "array2d"):
+        elif rep in ("array1d", "array2d", "array3d"):
             k = "array"
         elif rep in ("func1d", "func2d", "func1d_scalar"):
             k = "func"
@@ -303,7 +315,7 @@ def gen_case(rng, tier, entry=None, rep=None):
     for sp in species:
         if rep in ("scalar", "npscalar"):
             sp["kind"] = "dict_array" if sp["kind"] == "dict_func" else sp["kind"]
-        elif rep in ("array1d", "array2d"):
+        elif rep in ("array1d", "array2d", "array3d"):
             sp["kind"] = "dict_array" if sp["kind"] == "dict_func" else sp["kind"]
         elif rep in ("func1d_scalar", "mixed0d"):
             sp["kind"] = "dict_func"
@@ -320,7 +332,9 @@ def gen_case(rng, tier, entry=None, rep=None):
         th = rng.uniform(0, 2 * np.pi, N_EQ_CAND)
         rho = rng.uniform(0.12, 0.9, N_EQ_CAND)
         case["eq"] = {"cand": [[float(2.0 + 0.45 * r * math.cos(t)), float(0.75 * r * math.sin(t))] for r, t in zip(rho, th)],
-                      "phi": float(rng.uniform(0, 2 * np.pi))}
+                      "phi": float(rng.uniform(0, 2 * np.pi)),
+                      "off": [[float(2.0 + 0.45 * r * math.cos(t)), float(0.75 * r * math.sin(t))]
+                              for r, t in zip(rng.uniform(0.1, 0.9, N_EQ_OFF), rng.uniform(0, 2 * np.pi, N_EQ_OFF))]}
     return case
 
 
@@ -513,9 +527,16 @@ def _as_dtype(grid, dt):
         assert not a.flags["C_CONTIGUOUS"] or a.size <= 1
     elif dt == "list":
         return grid.tolist(), grid.ravel().copy()
+    elif dt == "F" and grid.ndim >= 2:
+        a = np.asfortranarray(grid)
+    elif dt == "T" and grid.ndim >= 2:                  # transposed view of a C array (3-D: a rolled-axes view, neither C nor F)
+        perm = list(range(1, grid.ndim)) + [0]
+        a = np.ascontiguousarray(grid.transpose(perm)).transpose(np.argsort(perm))
+    elif dt == "broadcast" and grid.ndim >= 2:          # a lower-dimensional profile broadcast along the first axis
+        a = np.broadcast_to(grid[0], grid.shape)
     else:
         a = grid.copy()
-    return a, a.astype(float).ravel().copy()
+    return a, np.array(a, dtype=float).ravel()
 
 
 def _make_fv1(kind, v):
@@ -808,10 +829,12 @@ def run_case(case, ctx):
         fv = float(xs[single]) if rep in ("func1d_scalar", "mixed0d") else None
     elif len(shape) == 1:
         fv = np.array(xs, dtype=float)
-    else:
+    elif len(shape) == 2:
         fv = [np.array(xs, dtype=float), np.array(ys, dtype=float)]
         if not case["fv_as_list"]:
             fv = tuple(fv)
+    else:
+        fv = None
     fv64 = fv
     fk = case.get("fvkind") or {"kind": "none"}
     if fv is not None and not iseq:
@@ -840,8 +863,12 @@ def run_case(case, ctx):
     for d_ in arr_dts:
         ctx.cls("array-dtype:" + d_)
     fdim = "function2d" if len(shape) == 2 else "function1d"
-    in_label = ("%s:%s-free-variable" % (fdim, fv_label)) if (fv_used and fv_label not in ("float64", "pyfloat", "arrays:float64/float64")) \
-        else "ndarray:" + "+".join(arr_dts)
+    parts = []
+    if fv_used and fv_label not in ("float64", "pyfloat", "arrays:float64/float64"):
+        parts.append("%s:%s-free-variable" % (fdim, fv_label))
+    if any(d != "float64" for d in arr_dts) or not parts:
+        parts.append("ndarray:" + "+".join(arr_dts))
+    in_label = "+".join(parts)
 
     # ---- oracle -----------------------------------------------------------------------------------------------------
     if not (np.all(ne > 0) and np.all(te > 0) and np.all(nd >= 0) and np.all(np.isfinite(ne + te + nd))):
@@ -886,6 +913,7 @@ def run_case(case, ctx):
     n0 = len(C.STATE["lsq"])
     mids = None
     mapper_vals = None
+    eq_off = None
     try:
         if entry == "fractional_abundance":
             got = _stack(ib.fractional_abundance(ad, el, in_ne, in_te, free_variable=fv_pass, **dkw), Z)
@@ -932,6 +960,24 @@ def run_case(case, ctx):
             got = g0
             mapper_vals = g1
             cols = list(range(1, 1 + len(samples)))
+            # off-node positions: the mapped profile must be the documented linear 1-D interpolator of the same family
+            offp = []
+            for r_, z_ in case["eq"].get("off", []):
+                if eq.inside_lcfs(r_, z_) == 1.0:
+                    p_ = eq.psi_normalised(r_, z_)
+                    if 0.01 < p_ < 0.97:
+                        offp.append((p_, r_, z_))
+            if offp:
+                fn1 = getattr(ib, entry.replace("equilibrium_map3d", "interpolators1d"))
+                ad1 = M.make_atomic_data(par)
+                if fam == "fractional":
+                    ref1 = fn1(ad1, el, fv, in_ne, in_te, *dargs)
+                elif fam == "from":
+                    ref1 = fn1(ad1, el, fv, in_nel, in_ne, in_te, *dargs)
+                else:
+                    ref1 = fn1(ad1, el, fv, in_species, in_ne, in_te, *dargs)
+                eq_off = (np.array([[res[z](r_, 0.0, z_) for (_, r_, z_) in offp] for z in range(Z + 1)]),
+                          np.array([[ref1[z](p_) for (p_, _, _) in offp] for z in range(Z + 1)]), offp)
         elif entry == "_fractional_abundance(coef_*)":
             ci, cr = ib.get_rates_ionisation(ad, el), ib.get_rates_recombination(ad, el)
             cx = ib.get_rates_tcx(ad, dargs[0], dargs[2], el) if donor is not None else None
@@ -1159,6 +1205,33 @@ def run_case(case, ctx):
             ctx.close(mapper_vals, got, "axisymmetric-mapper:abundance_axisymmetric_mapper",
                       "abundance_axisymmetric_mapper(f)(r cos phi, r sin phi, z) != f(r, z)", rtol=1e-9,
                       atol=1e-10 * float(np.max(np.abs(got))), monitor="axisym_mapper")
+    if iseq and eq_off is not None:
+        goff, roff, offp = eq_off
+        scale = float(np.max(np.abs(got))) + 1e-300
+        knots = np.array(xs, dtype=float)
+        tol_sum = 1e-10 + 2.0 * max(1e-12 + CS * EPS * o_["normA"] + (Z + 1) * CF * EPS * o_["kappa"] for o_ in O)
+        for c_, (p_, r_, z_) in enumerate(offp):
+            g = goff[:, c_]
+            wh = dict(psi_n=float(p_), r=float(r_), z=float(z_), between_nodes=[float(knots[knots <= p_].max()), float(knots[knots >= p_].min())])
+            ctx.mon("eqmap_offnode", Z + 1)
+            if not np.all(np.isfinite(g)) or g.min() < -1e-10 * scale:
+                ctx.viol("off-node:negative:%s" % entry, "between the psi_n nodes the mapped %s is negative (or non-finite)"
+                         % ("fraction" if fam == "fractional" else "density"), min=float(np.min(g)), scale=scale, **wh)
+            elif fam == "fractional" and g.max() > 1.0 + 1e-10:
+                ctx.viol("off-node:range:%s" % entry, "between the psi_n nodes a mapped fraction exceeds 1", max=float(g.max()), **wh)
+            if fam == "fractional" and np.all(np.isfinite(g)):
+                ctx.margin("eqmap_offnode_sum", abs(float(g.sum()) - 1.0) / tol_sum)
+                if abs(float(g.sum()) - 1.0) > tol_sum:
+                    ctx.viol("off-node:sum-not-one:%s" % entry, "between the psi_n nodes the mapped fractions do not sum to one",
+                             sum_minus_1=float(g.sum() - 1.0), **wh)
+            tol = 1e-9 * np.abs(roff[:, c_]) + 1e-10 * scale
+            if np.any(np.abs(g - roff[:, c_]) > tol):
+                k_ = int(np.argmax(np.abs(g - roff[:, c_]) / tol))
+                ctx.viol("off-node:disagrees-with-%s:%s" % (entry.replace("equilibrium_map3d", "interpolators1d"), entry),
+                         "between the psi_n nodes the equilibrium-mapped profile differs from the (linear) 1-D interpolator "
+                         "of the same family evaluated at psi_n(r, z)", charge=k_, got=float(g[k_]), want=float(roff[k_, c_]), **wh)
+            else:
+                ctx.margin("eqmap_offnode", float(np.max(np.abs(g - roff[:, c_]) / tol)))
     if iseq:
         ctx.mon("eqmap_points", got.size)
         ctx.close(mapper_vals, got, "equilibrium-map-not-axisymmetric:%s" % entry,
